@@ -25,7 +25,7 @@ import (
 )
 
 func main() {
-	Main(map[string]Runner{"pool": runPool, "priority": runPriority, "race": runRace, "race-child": runRaceChild})
+	Main(map[string]Runner{"pool": runPool, "priority": runPriority, "race": runRace, "race-child": runRaceChild, "content": runContent})
 }
 
 func errClassPool(err error) int64 {
@@ -106,7 +106,8 @@ func linkedOnTop(v acctView) bool {
 		prev = v.confirmed[n-1].Identifier()
 	}
 	for _, b := range v.pool {
-		if b.Previous() != prev || b.Height != prev.Height+1 {
+		// block by block (Previous() of a contract receive names the parent of its whole batch)
+		if b.PreviousHash != prev.Hash || b.Height != prev.Height+1 {
 			return false
 		}
 		prev = b.Identifier()
@@ -121,6 +122,9 @@ type poolRun struct {
 	users      []*wallet.KeyPair
 	lis        *poolListener
 	subscribed bool // the RPC subscription server is one of the chain's listeners
+	vk         *viewKeeper                   // views of pooled positions handed out earlier and still held (views.go)
+	what       string                        // the operation being made (for the details of failing oracles)
+	sib        map[types.Address][]*sibling // competitors prepared while their parent was the frontier (ladder.go)
 }
 
 func (r *poolRun) views() map[types.Address]acctView {
@@ -128,6 +132,8 @@ func (r *poolRun) views() map[types.Address]acctView {
 	for _, u := range r.users {
 		m[u.Address] = view(r.nd, u.Address)
 	}
+	// the token contract: its batches (receive + descendant sends) are pooled by the pillar's contract worker after a momentum
+	m[types.TokenContract] = view(r.nd, types.TokenContract)
 	return m
 }
 
@@ -156,6 +162,7 @@ func (r *poolRun) emitStep(before acctView, opTerm M, code int64, after acctView
 
 func (r *poolRun) checkAll(before map[types.Address]acctView, touched types.Address, addOp bool) map[types.Address]acctView {
 	after := r.views()
+	r.observeViews(r.what, r.viewAccounts())
 	for a, v := range after {
 		r.out.Oracle(linkedOnTop(v), "pool-single-linked-chain", Tup(a.String(), I64(int64(len(v.confirmed))), I64(int64(len(v.pool)))))
 		if addOp {
@@ -177,7 +184,7 @@ func runPool(rng *rand.Rand, n int, out *Out, _ []string) {
 func poolHistory(rng *rand.Rand, out *Out) {
 	nd := NewNode()
 	defer nd.Stop()
-	r := &poolRun{nd: nd, rng: rng, out: out, users: []*wallet.KeyPair{g.User1, g.User2, g.User3}}
+	r := &poolRun{nd: nd, rng: rng, out: out, users: []*wallet.KeyPair{g.User1, g.User2, g.User3}, vk: &viewKeeper{}, sib: map[types.Address][]*sibling{}}
 	// every insert / delete notification of the chain is observed (compete.go)
 	r.lis = &poolListener{r: r}
 	nd.Ch.Register(r.lis)
@@ -193,6 +200,7 @@ func poolHistory(rng *rand.Rand, out *Out) {
 	}
 	defer func() {
 		nd.Ch.UnRegister(r.lis)
+		r.vk.counters(out)
 		out.Count(fmt.Sprintf("pool:history:insert-notifications>=%d", min(r.lis.inserts/10*10, 30)))
 		if r.lis.nilBlk > 0 {
 			// OBSERVATION (outside C14's statement, see design.d/C14.md): the insert notification of a momentum the store did
@@ -237,6 +245,16 @@ func poolHistory(rng *rand.Rand, out *Out) {
 				b := &nom.AccountBlock{BlockType: nom.BlockTypeUserSend, Address: u.Address, ToAddress: types.TokenContract, TokenStandard: types.ZnnTokenStandard,
 					Amount: constants.TokenIssueAmount, Data: definition.ABIToken.PackMethodPanic(definition.IssueMethodName, fmt.Sprintf("tok-%d", s), "TKN", "", big.NewInt(100), big.NewInt(1000), uint8(1), true, true, false)}
 				tx, err = nd.Sv.GenerateFromTemplate(b, u.Signer)
+			} else if rng.Intn(2) == 0 {
+				// two candidates for this height; the second one is kept and offered later (ladder.go)
+				var s *sibling
+				tx, s, err = r.craftPair(u)
+				if err == nil && s != nil {
+					r.sib[u.Address] = append(r.sib[u.Address], s)
+					if n := len(r.sib[u.Address]); n > 6 {
+						r.sib[u.Address] = r.sib[u.Address][n-6:]
+					}
+				}
 			} else {
 				tx, err = r.craft(u, types.HashHeight{}, []uint64{0, 0, 1000, 21000, 50000}[rng.Intn(5)], []int{0, 0, 10, 100}[rng.Intn(4)])
 			}
@@ -245,15 +263,34 @@ func poolHistory(rng *rand.Rand, out *Out) {
 				continue
 			}
 			opTerm := Con("OAdd", false, blockTerm(tx.Block))
+			r.what = fmt.Sprintf("fast-forward insert at height %d of %v", tx.Block.Height, u.Address)
 			e := nd.Insert(tx)
 			after := r.checkAll(before, u.Address, true)
 			r.emitStep(bv, opTerm, errClassPool(e), after[u.Address], "fast-forward")
 			out.Oracle(e == nil && len(after[u.Address].pool) == len(bv.pool)+1, "fast-forward-accepted", Tup(fmt.Sprint(e)))
-		case k < 72: // competing block at an occupied pooled height
+		case k >= 64 && k < 72: // competitors for every unconfirmed height of a freshly pooled chain (ladder.go)
+			r.ladder(u)
+		case k < 64 && len(r.sib[u.Address]) > 0 && rng.Intn(2) == 0: // a competitor prepared earlier, whatever happened to its height since
+			l := r.sib[u.Address]
+			i := rng.Intn(len(l))
+			sb := l[i]
+			r.sib[u.Address] = append(l[:i:i], l[i+1:]...)
+			force := rng.Intn(4) == 0
+			tag := "prepared-" + sb.rel
+			if force {
+				tag += "-forced"
+			}
+			r.offer(u, sb.tx, force, tag)
+		case k < 64: // competing block at an occupied pooled height, built by the node on the view of the parent
 			if len(bv.pool) == 0 {
 				continue
 			}
 			idx := rng.Intn(len(bv.pool))
+			// the parent version as the pool hands it out
+			if pv := nd.Ch.GetAccountStore(u.Address, bv.pool[idx].Previous()); pv == nil || pv.Identifier() != bv.pool[idx].Previous() {
+				out.Oracle(false, "pool-view-at-identifier-is-the-state-after-that-block", M{"account": u.Address.String(), "pooled_position": I64(int64(idx)), "pooled": I64(int64(len(bv.pool))),
+					"view": "account store of the parent of a competing block", "nil": pv == nil})
+			}
 			inc := bv.pool[idx]
 			if inc.BlockType != nom.BlockTypeUserSend {
 				continue
@@ -281,6 +318,8 @@ func poolHistory(rng *rand.Rand, out *Out) {
 			}
 			force := rng.Intn(4) == 0
 			opTerm := Con("OAdd", force, blockTerm(tx.Block))
+			r.what = fmt.Sprintf("competing block for pooled position %d of %d of %v (forced=%v)", idx+1, len(bv.pool), u.Address, force)
+			out.Count(fmt.Sprintf("pool:competitor-offered-at-pooled-position=%d-of-%d", min(idx+1, 5), min(len(bv.pool), 5)))
 			ins := nd.Ch.AcquireInsert("c14")
 			var e error
 			if force {
@@ -347,6 +386,7 @@ func poolHistory(rng *rand.Rand, out *Out) {
 			}
 			force := rng.Intn(3) == 0
 			opTerm := Con("OAdd", force, blockTerm(tx.Block))
+			r.what = fmt.Sprintf("%s block at height %d offered to %v (forced=%v)", tag, tx.Block.Height, u.Address, force)
 			ins := nd.Ch.AcquireInsert("c14")
 			var e error
 			p := protect(func() {
@@ -366,6 +406,7 @@ func poolHistory(rng *rand.Rand, out *Out) {
 			out.Oracle(sameHashes(after[u.Address].pool, bv.pool), "rejected-block-leaves-pool-unchanged", Tup(tag, fmt.Sprint(e)))
 		case k < 91: // momentum
 			r.lis.before, r.lis.context = before, "momentum"
+			r.what = fmt.Sprintf("momentum %d inserted", nd.FrontierHeight()+1)
 			nd.Momentum()
 			r.lis.before = nil
 			fm, _ := nd.Ch.GetFrontierMomentumStore().GetFrontierMomentum()
@@ -400,6 +441,7 @@ func poolHistory(rng *rand.Rand, out *Out) {
 				continue
 			}
 			target, _ := ms.GetMomentumByHeight(H - uint64(1+rng.Intn(2)))
+			r.what = fmt.Sprintf("momentums rolled back from %d to %d", H, target.Height)
 			ins := nd.Ch.AcquireInsert("c14-rollback")
 			e := nd.Ch.RollbackTo(ins, target.Identifier())
 			ins.Unlock()
